@@ -496,17 +496,34 @@ func c01census(c *hx.Ctx) error {
 			continue
 		}
 		var cands []censusEntry
-		for _, e := range table {
-			ek := censusKey(e.Kind, e.File, e.Func, e.Expr)
-			if e.Kind == s.kind && e.File == s.file && baseExpr(e.Expr) == baseExpr(s.expr) && !present[ek] && !taken[ek] {
-				cands = append(cands, e)
+		// first the same function in another file of the package (the function was moved), then the same file, then the package
+		for pass := 0; pass < 3 && len(cands) == 0; pass++ {
+			for _, e := range table {
+				ek := censusKey(e.Kind, e.File, e.Func, e.Expr)
+				if e.Kind != s.kind || baseExpr(e.Expr) != baseExpr(s.expr) || present[ek] || taken[ek] {
+					continue
+				}
+				switch pass {
+				case 0:
+					if filepath.Dir(e.File) == filepath.Dir(s.file) && e.Func == s.fn {
+						cands = append(cands, e)
+					}
+				case 1:
+					if e.File == s.file {
+						cands = append(cands, e)
+					}
+				case 2:
+					if filepath.Dir(e.File) == filepath.Dir(s.file) {
+						cands = append(cands, e)
+					}
+				}
 			}
 		}
 		if len(cands) == 1 {
 			taken[censusKey(cands[0].Kind, cands[0].File, cands[0].Func, cands[0].Expr)] = true
-			c.Rep.Notes = append(c.Rep.Notes, fmt.Sprintf("site moved within %s: %s %s from %s to %s (review carried over)", s.file, s.kind, s.expr, cands[0].Func, s.fn))
+			c.Rep.Notes = append(c.Rep.Notes, fmt.Sprintf("site moved within package: %s %s from %s:%s to %s:%s (review carried over)", s.kind, s.expr, cands[0].File, cands[0].Func, s.file, s.fn))
 			c.Hit("site-moved-within-file")
-			s.fn, s.expr = cands[0].Func, cands[0].Expr
+			s.file, s.fn, s.expr = cands[0].File, cands[0].Func, cands[0].Expr
 		}
 	}
 	// the guard of a `sorted-after` site is the number of sorting calls in its function.  When code moves between functions
@@ -524,8 +541,20 @@ func c01census(c *hx.Ctx) error {
 	for i := range sites {
 		s := &sites[i]
 		if e, ok := expect[censusKey(s.kind, s.file, s.fn, s.expr)]; ok && e.Class == "sorted-after" && s.guard < e.Guard {
-			if rev, ok := fileSortsReviewed[s.file]; ok && censusFileSorts[s.file] >= rev {
-				c.Rep.Notes = append(c.Rep.Notes, fmt.Sprintf("sorts moved within file %s: %s has %d sorting call(s), reviewed with %d; the file still holds %d (reviewed %d)", s.file, s.fn, s.guard, e.Guard, censusFileSorts[s.file], rev))
+			// (totals per package directory: functions also move between the files of a package)
+			rev, now := 0, 0
+			for f, n := range fileSortsReviewed {
+				if filepath.Dir(f) == filepath.Dir(s.file) {
+					rev += n
+				}
+			}
+			for f, n := range censusFileSorts {
+				if filepath.Dir(f) == filepath.Dir(s.file) {
+					now += n
+				}
+			}
+			if rev > 0 && now >= rev {
+				c.Rep.Notes = append(c.Rep.Notes, fmt.Sprintf("sorts moved within file %s: %s has %d sorting call(s), reviewed with %d; the package still holds %d (reviewed %d)", s.file, s.fn, s.guard, e.Guard, now, rev))
 				c.Hit("sorts-moved-within-file")
 				s.guard = e.Guard
 			}
